@@ -1,17 +1,32 @@
 (* C23 — generated source is deterministic, idempotent and replaced atomically.  Statements only.
    `the_holes` is regenerated from recompiler._make_c_or_py_source on every run (C23/Gen.v);
-   write_trace, run, mutating, universal_nl: C23/Model.v.
+   write_trace, run, mutating, universal_nl: C23/Model.v;  sort_by: C23/Order.v.
 
-   This file covers the write path (idempotence, atomic replacement).  The determinism half of the
-   property (same text across processes / hash seeds / calls) is established by sampling in
-   tools/props/c23.py — label partial.
+   What is PROVED here, clause by clause of the property statement:
+     "Regenerating into a file whose content is already identical leaves it untouched (mtime preserved) and
+      reports it as not updated"        C23_uptodate (content without '\r'), C23_not_updated_means_same;
+                                        false for content with '\r': C23_uptodate_refuted (known finding)
+     "otherwise, at any crash point during regeneration, the target path holds either the complete old
+      content or the complete new content"   C23_atomic (every prefix of the operation trace), C23_final_state
+     "The text written ... is a function of the cdef declarations, module name and C source only: identical
+      across processes, hash seeds and repeated calls"
+                                        NOT proved as such.  Proved: C23_sorted_emission_order — a list obtained
+                                        by sorted(items, key) with keys distinct does not depend on the order in
+                                        which a set/dict delivered the items (the only way the hash seed can
+                                        reach the emitter).  Decided by the check only: that recompiler.py
+                                        iterates its hash-ordered containers exclusively through sorted(...)
+                                        (source audit, every run) and that the emitted bytes coincide across 4
+                                        PYTHONHASHSEED values, repeated calls and fresh FFI objects (sampling).
+   The skeleton of write_trace is hand-written; it is tied to the code by comparing the real I/O-call trace
+   with it on every run, and its decisive parts are re-extracted from the source (Gen.v).
 
    Reading recorded (DESIGN Appendix B): crash points are the I/O steps of the path taken on POSIX
    (the first rename succeeds); a failing first rename is a fault outside the quantifier
    (C23_fallback_not_atomic shows what happens then). *)
 From Coq Require Import List NArith ZArith Bool.
 Import ListNotations.
-From Cffi Require Import C35.PyStr C35.Model C23.Model C23.Gen C23.Proofs.
+From Coq Require Import Permutation Sorted.
+From Cffi Require Import C25.Model C25.Proofs C35.PyStr C35.Model C23.Model C23.Gen C23.Proofs C23.Order.
 Open Scope N_scope.
 
 (* regenerating into a file whose content is already identical: no mutating operation at all
@@ -58,6 +73,17 @@ Theorem C23_fallback_not_atomic : exists old new k,
 Proof. exact fallback_not_atomic. Qed.
 Print Assumptions C23_fallback_not_atomic.
 
+(* determinism, the proved part: sorted(items, key=key) with pairwise distinct keys is the same list for
+   every order in which the items are delivered — the items in strictly increasing key order *)
+Theorem C23_sorted_emission_order : forall (A : Type) (key : A -> cstr) (l l' : list A),
+  NoDup (map key l) -> Permutation l l' ->
+  sort_by A key l = sort_by A key l' /\
+  Permutation (sort_by A key l) l /\ StronglySorted (klt A key) (sort_by A key l).
+Proof.
+  intros A key l l' N P. split; [apply sort_by_perm_invariant; auto | apply sort_by_spec; auto].
+Qed.
+Print Assumptions C23_sorted_emission_order.
+
 (* non-vacuity: old "ab\n", new "ac\n": the seven operations and the states they go through *)
 Example C23_example :
   write_trace the_holes true (Some [97;98;10]) [97;99;10] =
@@ -71,4 +97,10 @@ Proof. vm_compute. split; reflexivity. Qed.
 
 Example C23_example_uptodate :
   write_trace the_holes true (Some [97;10]) [97;10] = ([OOpenRead Target; ORead Target 3; OClose Target], false).
+Proof. vm_compute. reflexivity. Qed.
+
+(* three declarations delivered in two different orders are emitted in the same order *)
+Example C23_example_order :
+  sort_by (list N * nat) fst [([98], 1%nat); ([97;98], 2%nat); ([97], 3%nat)] =
+  sort_by (list N * nat) fst [([97], 3%nat); ([98], 1%nat); ([97;98], 2%nat)].
 Proof. vm_compute. reflexivity. Qed.
